@@ -118,6 +118,7 @@ PROBES.insert(0, (re.compile(r"^ad::(AuthenticatorData::(new|set_\w+|to_vec)|Att
                    for f in (0x00, 0x01, 0x04, 0x05, 0x40, 0x80, 0xc5)]))
 # the verified table checker says the table and the rule list disagree: the enumeration names a domain that shows it
 PROBES.insert(0, (re.compile(r"^psl::"), "psl-enumerate", ["/repo/public-suffix/public_suffix_list.dat"]))
+PROBES.insert(0, (re.compile(r"^psl::ListProvider::is_effective_tld::"), "psl-empty-labels", ["-"]))
 PROBES.insert(0, (re.compile(r"^dbg::"), "passkey-debug", ["-"]))
 # client-side PRF clauses: hashed and pre-hashed inputs of every length through the real client
 PROBES.insert(0, (re.compile(r"^cli::(convert_eval_to_ctap|make_salt|make_ctap_extension|validate_no_eval_by_cred|registration_prf_to_ctap2_input)::"), "client-prf", ["-"]))
@@ -198,6 +199,8 @@ def probe(o, pid=None):
                 entry, a = a[1:].split(":", 1)
             if entry == "authdata-built" and pid in ("C02", "C03", "C04", "C08"):
                 a = a + "|" + pid     # only what this property says of authenticator data is looked at
+            if entry == "client-ceremonies" and pid in ("C01", "C02", "C03", "C04", "C05", "C11"):
+                a = pid               # the client sweep on behalf of one property
             key = "%s %s" % (entry, a)
             if key in skip and key not in own:
                 continue   # the recorded input of a known finding is evidence for that finding only
@@ -368,6 +371,8 @@ def fallback_probe(pid, units):
                 continue     # a wrapper operation this property says nothing about
             if e2 == "authdata-built" and pid in ("C02", "C03", "C04", "C08"):
                 a = a + "|" + pid
+            if e2 == "client-ceremonies" and pid in ("C01", "C02", "C03", "C04", "C05", "C11"):
+                a = pid
             rep = run_replay(e2, a, timeout=300)
             tried += 1
             if rep.get("violates"):
